@@ -104,6 +104,9 @@ type observed struct {
 	enumerated        int
 	fileBytes         int
 	multiByteRawRange bool
+	nonRect           bool // a malformed raw range with First <= Last as byte strings
+	reversed          bool // a malformed raw range with First > Last as byte strings
+	extractRejected   bool // Extract refused the file (reversed ranges only)
 }
 
 func toLib(s cmapmodel.Set) charcode.CodeSpaceRange {
